@@ -44,10 +44,15 @@ func selftestDeterminism(args []string) int {
 		}
 		var ref map[string]uint64
 		procs := 0
+		badBefore := bad
 		for _, w := range []int{0, 5} {
 			ref = nil
-			for _, gmp := range []string{"1", "4", "16", "1", "4", "16"} {
-				cmd := exec.Command(self, "worker", "-prop", id, "-tier", "quick", "-seed", "12345", "-w", strconv.Itoa(w), "-runs", strconv.Itoa(n), "-digests")
+			for pi, gmp := range []string{"1", "4", "16", "1", "4", "16"} {
+				a := []string{"worker", "-prop", id, "-tier", "quick", "-seed", "12345", "-w", strconv.Itoa(w), "-runs", strconv.Itoa(n), "-digests"}
+				if pi >= 3 {
+					a = append(a, "-traced") // logging must not perturb a run
+				}
+				cmd := exec.Command(self, a...)
 				cmd.Env = append(os.Environ(), "GOMAXPROCS="+gmp)
 				out, err := cmd.Output()
 				if err != nil {
@@ -81,7 +86,7 @@ func selftestDeterminism(args []string) int {
 				}
 			}
 		}
-		fmt.Printf("selftest-determinism %s: %d run seeds x 2 worker indices, %d processes at GOMAXPROCS 1/4/16 (twice each): %s\n", id, n, procs, map[bool]string{true: "identical digests", false: "DIFFERENCES"}[bad == 0])
+		fmt.Printf("selftest-determinism %s: %d run seeds x 2 worker indices, %d processes at GOMAXPROCS 1/4/16 (once untraced, once with tracing on): %s\n", id, n, procs, map[bool]string{true: "identical digests", false: "DIFFERENCES"}[bad == badBefore])
 	}
 	if bad > 0 {
 		fmt.Println("MACHINERY: nondeterminism detected")
